@@ -256,3 +256,64 @@ def carried_uses(cfg: CFG, head: Node, var: str) -> List[Node]:
             if used:
                 out.append(n)
     return out
+
+
+def guarded_not_none(cfg: CFG, n: Node, e: ast.AST) -> bool:
+    """Reaching *n* implies ``e is not None`` (``e`` a plain name), by a test on the way."""
+    if not isinstance(e, ast.Name):
+        return False
+    for t, pol in cfg.required_conditions(n):
+        if isinstance(t, ast.Compare) and len(t.ops) == 1 and isinstance(t.left, ast.Name) and t.left.id == e.id \
+                and isinstance(t.comparators[0], ast.Constant) and t.comparators[0].value is None:
+            if (isinstance(t.ops[0], ast.IsNot) and pol) or (isinstance(t.ops[0], ast.Is) and not pol):
+                return True
+        if isinstance(t, ast.Name) and t.id == e.id and pol:
+            return True
+    return False
+
+
+def drop_none(cfg: CFG, n: Node, e: ast.AST, origs):
+    """Origins of *e* at *n* without the literal None ones when a guard on the way excludes None."""
+    if guarded_not_none(cfg, n, e):
+        return [o for o in origs if not (o.kind == "expr" and isinstance(o.leaf, ast.Constant) and o.leaf.value is None and not o.path)]
+    return origs
+
+
+def param_compare_tests(cfg: CFG, du: DefUse, param: str) -> List[Node]:
+    """Equality tests in which exactly one side is derived from parameter *param* (directly or through
+    local assignments such as ``x = param.encode()``) and the other side is not the constant None."""
+    from ..dataflow import depends_on
+    out = []
+    for n in cfg.nodes:
+        t = n.ast
+        if n.kind != "test" or not (isinstance(t, ast.Compare) and len(t.ops) == 1 and isinstance(t.ops[0], (ast.Eq, ast.NotEq))):
+            continue
+        sides = [t.left, t.comparators[0]]
+        if any(isinstance(x, ast.Constant) and x.value is None for x in sides):
+            continue
+        dep = [param in depends_on(du, n, x) for x in sides]
+        if dep[0] != dep[1]:
+            out.append(n)
+    return out
+
+
+def loops_over(cfg: CFG, suffix, du: Optional[DefUse] = None, exact: bool = False, no_args: bool = False) -> List[Node]:
+    """``for`` nodes iterating over a call whose dotted callee ends with *suffix* (a str or tuple of str),
+    directly or through a local name (``it = f(); for x in it``)."""
+    from ..dataflow import iter_exprs
+    sufs = (suffix,) if isinstance(suffix, str) else tuple(suffix)
+    du = du or DefUse(cfg)
+    out = []
+    for n in cfg.nodes:
+        if n.kind != "for":
+            continue
+        for it in iter_exprs(du, n):
+            if isinstance(it, ast.Await):
+                it = it.value
+            if not isinstance(it, ast.Call):
+                continue
+            d = dotted(it.func) or ""
+            if (d in sufs if exact else d.endswith(sufs)) and not (no_args and (it.args or it.keywords)):
+                out.append(n)
+                break
+    return out
